@@ -14,10 +14,27 @@ HF = "heavy.LeastSquare.fit_function"
 
 
 def count_gate(r: R, chk, qual: str, what: str, targets):
+    from .common import expand_locals
+
     ctx = r.root(qual)
-    gates = [n for n in r.stmt_nodes(ctx) if isinstance(n.ast, ast.Assert) and "len(" in seg(n.ast.test) and "npts" in seg(n.ast.test)]
-    gates += [g[0] for g in r.raise_guards(ctx, ("ValueError", "AssertionError")) if "len(" in seg(g[0].ast) and "npts" in seg(g[0].ast)]
+
+    def text(e):
+        return seg(expand_locals(ctx.fi, e), 400) if isinstance(e, ast.expr) else seg(e, 400)
+
+    gates = [n for n in r.stmt_nodes(ctx) if isinstance(n.ast, ast.Assert) and "len(" in text(n.ast.test) and "npts" in text(n.ast.test)]
+    gates += [g[0] for g in r.raise_guards(ctx, ("ValueError", "AssertionError")) if "len(" in text(g[0].ast) and "npts" in text(g[0].ast)]
     chk.floor("GATE-COUNT", f"`len(...) >= npts` check in {qual}", len(gates), 1)
+
+    def counts_the_data(n):
+        t = n.ast.test if isinstance(n.ast, ast.Assert) else n.ast
+        t = expand_locals(ctx.fi, t) if isinstance(t, ast.expr) else t
+        return any(isinstance(c, ast.Call) and isinstance(c.func, ast.Name) and c.func.id == "len" and c.args and any(isinstance(x, ast.Name) and x.id == what for x in ast.walk(c.args[0])) for c in ast.walk(t))
+
+    right = [g for g in gates if counts_the_data(g)]
+    chk.ob("GATE-COUNT", f"{qual}: the count check counts the {what}", bool(right), loc=r.loc(ctx, gates[0].ast),
+           detail="" if right else f"{qual}: `{seg(gates[0].ast, 60)}` compares npts with the length of something else than `{what}`: when the two lengths differ (more nodes than points) fewer {what} than control points are accepted",
+           func=qual, construct=f"count check not on {what}")
+    gates = right or gates
     for t in targets(ctx):
         ok = any(ctx.cfg.dominates(g.id, t.id) for g in gates)
         chk.ob("GATE-COUNT", f"{qual}: `{seg(t.ast, 40)}` only after the {what} check", ok, loc=r.loc(ctx, t.ast), detail="" if ok else f"{qual}: `{seg(t.ast, 50)}` is reachable without the check that there are at least npts {what}: an under-determined fit is accepted", func=qual, construct="count check bypassed")
@@ -30,7 +47,7 @@ def run(m, chk):
         "commit is last; the committed points depend on points, nodes, knot vector and weights (rational bases included, ARG-FLOW at the fitfunc call); fit_function samples the function at exactly the nodes it passes on. "
         "The normal equations, interpolation and reproduction are not decided."
     )
-    chk.decides = ["SEARCH-ALL (the pivot search and every other conditional loop of the solver can go on to the next candidate)", "MEMO-KEY (no function on the path is memoised by the value of numbers / knot vectors)", "GATE-COUNT", "COMMIT-LAST", "DEP-MAY", "ARG-FLOW", "SAME-NODES", "PURE", "ONE-NODE-FAMILY (the default nodes of fit_points do not depend on the number type)", "PRECOND-LB (len(points) = 1 does not trip the node generator's assertion)"]
+    chk.decides = ["END-EXACT (closed reference nodes are mapped onto a span with an expression that is exact at both ends)", "SEARCH-ALL (the pivot search and every other conditional loop of the solver can go on to the next candidate)", "MEMO-KEY (no function on the path is memoised by the value of numbers / knot vectors)", "GATE-COUNT", "COMMIT-LAST", "DEP-MAY", "ARG-FLOW", "SAME-NODES", "PURE", "ONE-NODE-FAMILY (the default nodes of fit_points do not depend on the number type)", "PRECOND-LB (len(points) = 1 does not trip the node generator's assertion)"]
     chk.not_decided = ["residual orthogonal to the collocation columns", "interpolation when len(points) = npts", "reproduction of curves of the same space"]
     count_gate(r, chk, FP, "points", lambda ctx: [ctx.cfg.nodes[w] for w in r.write_nodes(ctx, 0)])
     count_gate(r, chk, HF, "nodes", lambda ctx: [n for n in r.stmt_nodes(ctx) if isinstance(n.ast, ast.Return)])
@@ -95,3 +112,7 @@ def run(m, chk):
     from .extra import search_all
 
     search_all(r, chk, ["curves.Curve.fit_points", "curves.Curve.fit_function", "heavy.Linalg.invert_integer_matrix", "heavy.Linalg.solve", "heavy.Linalg.lstsq"], floor=3)
+    from .extra import end_exact
+
+    nee = end_exact(r, chk, [FP])
+    chk.floor("END-EXACT", "maps of possibly closed reference nodes onto an interval", nee, 1)
